@@ -121,7 +121,7 @@ Next ==
             \/ \E n \in (0..(MaxCap + 1)) \cup {Cfg.maxu} : Do([op |-> "shrink_to", v |-> x, n |-> n, path |-> p])
        \/ "recreate" \in Alpha /\ ~Cfg.fixed /\ \E n \in 0..3 : Do([op |-> "recreate", v |-> x, n |-> n])
        \/ "clone" \in Alpha /\ \E w \in Vecs \ {x} : Quiet(st, w) /\ Do([op |-> "clone_vec", v |-> x, to |-> w])
-       \/ "ce_probe" \in Alpha /\ \E via \in {"same", "heap", "stack", "stackn", "fence"} : Do([op |-> "ce_probe", v |-> x, via |-> via])
+       \/ "ce_probe" \in Alpha /\ \E via \in {"same", "heap", "stack", "stackn", "stackn1", "empty", "fence"} : Do([op |-> "ce_probe", v |-> x, via |-> via])
        \/ "lazy" \in Alpha /\ \E i \in 0..(Len0(x) - 1) : LazyDo(x, "elem", i)
        \/ "raw" \in Alpha /\ \E c \in BOOLEAN : Do([op |-> "raw_roundtrip", v |-> x, clone |-> c])
        \/ "wrong" \in Alpha /\ \E ty \in {"X8", "Y8", "Z16"} :
